@@ -86,8 +86,8 @@ PROPS['C06'] = {
                    'synonym table (which mnemonic each of the spellings is emitted as) is decided by the grammar engine',
     'bounds': 'loop-free: all 2^16 flag words x 2^16 CX x every mnemonic; label table with one entry',
     'outside': 'which interpreter mnemonic a source spelling is turned into is E2 (spelling table below); parser driver',
-    'backends': [(r'combiner', ['sat', 'z3']), (r'.*', [('z3', 'cvc5'), 'sat-arrays'])],
-    'assumptions': ['label table = association list under Kani'],
+    'backends': [(r'combiner|^c06s_', ['sat', 'z3']), (r'.*', [('z3', 'cvc5'), 'sat-arrays'])],
+    'assumptions': ['synonym table (JNBE=JA, JNA=JBE, ... ) transcribed from the Intel manual in lib/gen.py', 'label table = association list under Kani'],
     'level_text': 'bounded model checking without a bound: the predicate of every mnemonic is compared with the Intel table for all flag words',
     'level_note': 'trusted: Kani/CBMC/solver soundness; JLE/JNG is a known finding (pinned by a repository test)',
 }
@@ -97,7 +97,7 @@ PROPS['C07'] = {
                    'completion with a scripted body (arbitrary sequence of ZF outcomes) against the architectural loop',
     'bounds': 'kernels: loop-free, all states; REP protocol: CX <= 3 (quick) / CX <= 8 (thorough), unwinding assertions on; larger CX outside the claim',
     'outside': 'word elements at offset 0xFFFF (second byte: physical successor vs. wrap) -- totality for them is C09; the driver loop that re-parses on REPEAT is played by the harness (reduction order validated natively)',
-    'backends': [(r'rep_protocol|mnemonic', ['sat', 'z3']), (r'.*', [('z3', 'cvc5'), 'sat-arrays'])],
+    'backends': [(r'rep_protocol|mnemonic|^c07s_', ['sat', 'z3']), (r'.*', [('z3', 'cvc5'), 'sat-arrays'])],
     'assumptions': ['REP harness: the string kernel is replaced by a scripted body passed as the semantic value of string_instructions (the productions receive the kernel as a value); the kernels themselves are the A-harnesses'],
     'level_text': 'bounded model checking: kernels for every state; prefix protocol for every CX within the bound and every sequence of comparison outcomes',
     'level_note': 'trusted: Kani/CBMC/solver soundness; CX beyond the bound is outside the claim',
